@@ -1,6 +1,7 @@
 import RattrDriver.JsonUtil
 import RattrDriver.C12
 import RattrModel.Stats
+import RattrModel.RelBase
 import RattrModel.Spec.Allowed
 
 /-! op `c07_run` (property C07, round 3): the numbers of `--stdout stats`, the output stage of `main`, and the
@@ -86,9 +87,40 @@ def handle (payload : Json) : R Json := do
           pure (Json.str (outStr (outputStage out s (← asBool tz))))
         | _ => throw "show row: [fileLines, importLines, nImports, unique, timesZero, output]"
       pure (jList rows)
+  -- K23: the guard of the relative-import visitors; `exists` = the dotted names `module_exists` accepts (real verdicts)
+  let relbase ← match fieldD payload "relbase" Json.null with
+    | .null => pure Json.null
+    | l => do
+      let rows ← (← asArr l).mapM fun r => do
+        let comps := (← asStrList (← field r "comps")).map String.toList
+        let trueNames ← (← asArr (← field r "exists")).mapM fun n => do pure ((← asStrList n).map String.toList)
+        let fixed ← asBool (fieldD r "fixed" (Json.bool true))
+        pure (Json.str (match RelBase.relBase fixed (fun n => trueNames.contains n) comps with
+          | .crash e => "crash:" ++ e
+          | .fatal => "fatal"
+          | .base b => "base:" ++ ".".intercalate (b.map String.ofList)))
+      pure (jList rows)
+  -- K25: the tail of main; row = [fileLines, importLines, nImports, unique, timesZero, output, cache (null | bool), fixed]
+  let tails ← match fieldD payload "tail" Json.null with
+    | .null => pure Json.null
+    | l => do
+      let rows ← (← asArr l).mapM fun r => do
+        match (← asArr r) with
+        | [a, b, c, d, tz, o, cache, fixed] =>
+          let s : RunStats := ⟨← asInt a, ← asInt b, ← asInt c, ← asInt d⟩
+          let out ← match Output.ofString (← asStr o) with
+            | some o => pure o
+            | none => throw "unknown output"
+          let cw : Option Bool ← match cache with
+            | .null => pure none
+            | x => do pure (some (← asBool x))
+          pure (Json.str (match mainTail (← asBool fixed) out s (← asBool tz) cw with
+            | .ok => "ok" | .fatal => "fatal" | .crash e => "crash:" ++ e))
+        | _ => throw "tail row: [fileLines, importLines, nImports, unique, timesZero, output, cache, fixed]"
+      pure (jList rows)
   let run ← match fieldD payload "run" Json.null with
     | .null => pure Json.null
     | r => handleRun r
-  return Json.mkObj [("lines", lines), ("show", shows), ("run", run)]
+  return Json.mkObj [("lines", lines), ("show", shows), ("run", run), ("relbase", relbase), ("tail", tails)]
 
 end Rattr.Driver.C07Stats
